@@ -33,7 +33,7 @@ structure SRes where
   c : Nameref.C
   labels : List (String × String)
   annos : List (String × String)
-  deriving Repr
+  deriving DecidableEq, Repr, Inhabited
 
 def lookupKV (m : List (String × String)) (k : String) : Option String := (m.find? (·.1 = k)).map (·.2)
 
